@@ -824,6 +824,25 @@ pub(crate) fn parse_allowed_calendar_formats(s: &str) -> Option<&[u8]> {
     None
 }
 
+/// Returns the value of an optional parsed fraction in billionths of its unit (nanoseconds
+/// for a fraction of a second), or 0 when there is no fraction.
+///
+/// A fraction with more than nine digits cannot be represented and is a `RangeError`;
+/// it must not be mistaken for an absent fraction.
+#[inline]
+pub(crate) fn fraction_to_billionths(
+    fraction: Option<ixdtf::parsers::records::Fraction>,
+) -> TemporalResult<u32> {
+    let billionths = fraction
+        .map(|x| {
+            x.to_nanoseconds().ok_or(
+                TemporalError::range().with_message("fractional seconds exceeds nine digits."),
+            )
+        })
+        .transpose()?;
+    Ok(billionths.unwrap_or(0))
+}
+
 // TODO: ParseTimeZoneString, ParseZonedDateTimeString
 
 #[cfg(test)]
